@@ -90,6 +90,7 @@ def bytes_summaries():
         v = as_bytes(ex, st, argv[0])
         v.abs = v.abs + v.len
         v.len = b64(0)
+        v.items = []      # nothing of what was written into it is left
         return [(st, Unit())]
 
     @reg(r'^Vec::<u8>::append$')
